@@ -19,7 +19,7 @@ func sw(key, opname, val string) *snode {
 	return n
 }
 
-func sgrp(kind byte, kids ...*snode) *snode { return &snode{kind: kind, gap: " ", kids: kids} }
+func sgrp(kind byte, kids ...*snode) *snode { return &snode{kind: kind, gap: " ", ngap: " ", kids: kids} }
 
 // corpus: the regression cases (DESIGN.md §7 #9–#13 and what the check found since); always run first
 func corpus(g *g, emit func(hxlib.Case)) {
